@@ -26,7 +26,7 @@ def run(tier, seed, replay=None):
     rnd = random.Random(seed)
 
     # 1. design-level model checking + case emission
-    cfgs = ["Gen_Loader2.cfg", "Gen_Loader3.cfg", "Gen_Loader3S.cfg", "Gen_Loader3MS.cfg"] if tier == "quick" else \
+    cfgs = ["Gen_Loader2.cfg", "Gen_Loader3.cfg", "Gen_Loader3S.cfg", "Gen_Loader3MS.cfg", "Gen_Loader4S.cfg"] if tier == "quick" else \
            ["Gen_Loader2.cfg", "Gen_Loader3.cfg", "Gen_Loader3S.cfg", "Gen_Loader3MS.cfg", "Gen_Loader3M.cfg", "Gen_Loader3O.cfg", "Gen_Loader4S.cfg"]
     cases = []
     states = trans = 0
@@ -34,7 +34,7 @@ def run(tier, seed, replay=None):
         sim = None
         kw = {}
         if cfg == "Gen_Loader4S.cfg":
-            kw = dict(simulate="num=750", depth=100, seed=seed)       # num is per worker
+            kw = dict(simulate="num=%d" % (60 if tier == "quick" else 750), depth=100, seed=seed)       # num is per worker
         if cfg in ("Gen_Loader3S.cfg", "Gen_Loader3MS.cfg"):          # random interleavings (MS: some modules have no file)
             n = (100 if cfg == "Gen_Loader3S.cfg" else 40) if tier == "quick" else 1500
             kw = dict(simulate="num=%d" % n, depth=80, seed=seed)
@@ -57,7 +57,7 @@ def run(tier, seed, replay=None):
     if tier == "quick" and not replay:
         keep = []
         for c in cases:
-            if c["cfg"] in ("Gen_Loader2.cfg", "Gen_Loader3S.cfg", "Gen_Loader3MS.cfg") or rnd.random() < 0.5:
+            if c["cfg"] in ("Gen_Loader2.cfg", "Gen_Loader3S.cfg", "Gen_Loader3MS.cfg", "Gen_Loader4S.cfg") or rnd.random() < 0.5:
                 keep.append(c)
         cases = keep
     if not cases:
